@@ -4,10 +4,13 @@ Used ONLY for visited-state pruning in `full` mode, never as an oracle.  Rules a
 justification: DESIGN.md section 3.5.  Anything the serialiser does not know is a hard
 error (`Unknown`): nothing is abstracted silently.
 """
+import argparse
 import asyncio
 import collections
 import functools
 import hashlib
+import inspect
+import io
 import marshal
 import types
 from asyncio import locks
@@ -220,6 +223,26 @@ class _Canon:
     def module(self, o):
         return ("mod", o.__name__)
 
+    def stream_reader(self, o):
+        r, new = self.ref(o, "SR")
+        if not new:
+            return r
+        exc = type(o._exception).__name__ if o._exception is not None else None
+        return (r, bytes(o._buffer), o._eof, self.c(o._waiter), exc)
+
+    def stringio(self, o):
+        return ("StringIO", o.getvalue(), o.tell())
+
+    def prop(self, o):
+        return ("prop", getattr(o.fget, "__qualname__", None))
+
+    def repr_(self, o):
+        return ("repr", type(o).__name__, repr(o))
+
+    def parser(self, o):
+        # the argparse parser of a session is built once during the handshake and not mutated afterwards
+        return ("parser", type(o).__name__, o.prog)
+
 
 HANDLERS = {
     tuple: _Canon.seq,
@@ -256,6 +279,16 @@ def _resolve(t, o):
         h = _Canon.event
     elif issubclass(t, asyncio.Handle):
         h = _Canon.handle
+    elif issubclass(t, asyncio.StreamReader):
+        h = _Canon.stream_reader
+    elif issubclass(t, io.StringIO):
+        h = _Canon.stringio
+    elif issubclass(t, property):
+        h = _Canon.prop
+    elif issubclass(t, argparse.ArgumentParser):
+        h = _Canon.parser
+    elif issubclass(t, (inspect.Parameter, inspect.Signature)):
+        h = _Canon.repr_
     elif tn == "TaskStepMethWrapper":
         h = _Canon.stepwrap
     elif tn == "FutureIter":
